@@ -120,7 +120,6 @@ func HarnessC18Defaults() {
 		viaAllOf := spec.Schema{}
 		viaAllOf.AllOf = []spec.Schema{numSchema(10.0)}
 		s = objWith(map[string]spec.Schema{"a": viaAllOf, "b": numSchema(20.0)})
-		verifKF("C18-KF-DEFAULT-IN-ALLOF-OF-PROPERTY", true)
 	case 5: // properties next to oneOf: the matching alternative is the first or the second
 		s = objWith(map[string]spec.Schema{"b": numSchema(20.0)})
 		a1 := objWith(map[string]spec.Schema{"k": enumSchema(1), "a": numSchema(10.0)})
